@@ -31,7 +31,7 @@ PROBES = [["ulib"], ["ulib_extra"], ["ulibx"], ["other"], ["upkg"], ["upkg_more"
           ["mpilot.libraries.eems.basic", "ulibx"], ["mpilot.libraries.eems.csv"], ["mpilot.libraries.eems.netcdf"], ["mpilot.libraries.eems.csv", "mpilot.libraries.eems.netcdf"],
           ["upkg.one"], ["upkg.one", "upkg.two"], ["upkg.one", "other"], ["upkg_one"], ["updup"], ["updup.a"], ["updup.a", "updup.b"], ["updup.a", "other"],
           ["mpilot.libraries.eems"], ["upkg", "upkg_one"], [], ["usub"], ["mpilot.libraries.eems.basic", "usub"], ["usub", "mpilot.libraries.eems.basic"], CSV + ["usub"],
-          ["updup.a", "updup.c"], ["updup.c"], ["upkg.two"], ["upkg.named", "upkg.one"], ["usub", "other"]]
+          ["updup.a", "updup.c"], ["updup.c"], ["upkg.two"], ["upkg.named", "upkg.one"], ["usub", "other"], ["wdlib"], ["other", "wdlib"]]
 # expected duplicates by construction of the harness libraries (None = must succeed)
 DUPS = {("ulib", "ulib_extra"): ["Shared"], ("ulib", "ulibx"): ["Alpha"], ("upkg", "upkg_more"): ["PkgOne"],
         ("mpilot.libraries.eems.csv", "mpilot.libraries.eems.netcdf"): ["EEMSRead", "EEMSWrite"],
@@ -43,10 +43,12 @@ MODEL = "A = Alpha()\nB = Shared()"
 def gen_history(rng):
     steps = []
     for _ in range(rng.choice([1, 1, 2, 3, 4, 6])):
-        k = rng.choice(["program", "program", "program", "import", "define", "run"])
+        k = rng.choice(["program", "program", "program", "import", "define", "run", "program-wd"])
         if k == "program":
             libs = rng.choice(PROBES + [[rng.choice(USER)], [rng.choice(USER), rng.choice(USER)]])
             steps.append(["program", list(dict.fromkeys(libs))])
+        elif k == "program-wd":
+            steps.append(["program-wd", rng.choice([["wdlib"], ["other", "wdlib"], ["ulib"], ["wdlib", "upkg"]])])
         elif k == "import":
             steps.append(["import", rng.choice(USER + ["upkg.one", "upkg_more.three", "mpilot.libraries.eems.netcdf.io", "mpilot.libraries.eems.csv.io"])])
         elif k == "define":
@@ -70,6 +72,11 @@ def cases(ctx):
         if ctx.mine(k0):
             yield {"probe": probe, "history": [["program", probe]]}
             yield {"probe": probe, "history": [["program", probe], ["define", "Zeta", "__main__"], ["program", probe]]}
+        k0 += 1
+    for probe in (["wdlib"], ["other", "wdlib"]):
+        if ctx.mine(k0):
+            yield {"probe": probe, "history": [["program-wd", ["wdlib"]]]}
+            yield {"probe": probe, "history": [["program-wd", probe], ["program", ["other"]]]}
         k0 += 1
     for first, probe in [("upkg_one", ["upkg.one"]), ("upkgzone", ["upkg.one"]), ("upkg_one", ["upkg.one", "other"]), ("upkg_one", ["upkg"])]:
         if ctx.mine(k0):
@@ -121,6 +128,10 @@ def run_case(ctx, case):
                 ctx.fail("duplicates:not-rejected", {"probe": probe, "outcome": ref["outcome"], "expected_duplicates": want_dup})
             elif ref.get("duplicates") is not None and sorted(ref["duplicates"]) != want_dup:
                 ctx.fail("duplicates:wrong-names", {"probe": probe, "got": ref["duplicates"], "want": want_dup})
+        elif "wdlib" in probe:
+            # importable from nowhere on the module search path: requesting it cannot succeed
+            if ref["outcome"] not in ("ModuleNotFoundError", "ImportError"):
+                ctx.fail("clean-room:library-outside-the-module-search-path:%s" % ref["outcome"], {"probe": probe})
         elif ref["outcome"] != "ok":
             ctx.fail("clean-room:disjoint-libraries-rejected:%s" % ref["outcome"], {"probe": probe, "detail": ref})
         else:
@@ -143,7 +154,7 @@ def run_case(ctx, case):
         return
     ctx.count("histories_run")
     ctx.count("library_snapshots_compared")
-    touched = sorted(set(l for s in history if s[0] in ("program", "run") for l in s[1]) | set(s[1] for s in history if s[0] == "import"))
+    touched = sorted(set(l for s in history if s[0] in ("program", "run", "program-wd") for l in s[1]) | set(s[1] for s in history if s[0] == "import"))
     ctx.feature((tuple(probe), tuple(sorted(s[0] for s in history)), tuple(touched)[:4]))
     a = {k: v for k, v in ref.items() if k != "steps"}
     b = {k: v for k, v in got.items() if k != "steps"}
